@@ -3,7 +3,7 @@
     (AdaptiveDistance state machine).  Only statements here; proofs in Proofs/C12_*.v. *)
 From Coq Require Import String.
 From Coq Require Import ZArith QArith Qabs List Bool Arith.
-From Elfi Require Import Num.Distance Num.Welford Proofs.C12_Welford Proofs.C12_Distance Proofs.C12_Sampler.
+From Elfi Require Import Num.Distance Num.Welford Proofs.C12_Welford Proofs.C12_Distance Proofs.C12_Sampler Proofs.C12_Units.
 Import ListNotations.
 Open Scope Q_scope.
 
@@ -40,6 +40,48 @@ Theorem C12_scale_is_population_variance :
     nth j (scale2_of (fold_left add_data bs store0)) 0 == colvar (concat bs) j.
 Proof. exact scale2_is_variance. Qed.
 Print Assumptions C12_scale_is_population_variance.
+
+(** *** no absolute scale, no storage dtype
+
+    The model is a function of the NUMERIC values of the summaries (rationals): whatever array dtype
+    holds them (float32/64, int8..int64, uint8..uint64, bool, mixed across the batches of a round) the
+    statement is about the numbers.  And it has no absolute magnitude: the same data expressed in
+    another unit, [scale_mat c data] (every entry multiplied by [c], for EVERY rational [c], e.g.
+    2^-100 or 2^100), has variance, hence [scale]^2, multiplied by [c^2] - no floor, ceiling or
+    threshold - for every partition into batches; the appended weights are divided by [c^2] (the
+    squares of [w / |c|]); so the newest distance of summaries, observed values and adaptation data all
+    expressed in the unit [c <> 0] is the same number. *)
+Theorem C12_variance_unit_change :
+  forall c R j, colvar (scale_mat c R) j == c * c * colvar R j.
+Proof. exact colvar_scale. Qed.
+Print Assumptions C12_variance_unit_change.
+
+Theorem C12_scale_unit_change :
+  forall c w bs j,
+    bs <> [] -> Forall (fun b => b <> [] /\ width b = w) bs -> (j < w)%nat ->
+    nth j (scale2_of (fold_left add_data (map (scale_mat c) bs) store0)) 0
+    == c * c * nth j (scale2_of (fold_left add_data bs store0)) 0.
+Proof. exact scale2_unit_change. Qed.
+Print Assumptions C12_scale_unit_change.
+
+Theorem C12_weights_unit_change :
+  forall c a a' w bs,
+    bs <> [] -> Forall (fun b => b <> [] /\ width b = w) bs ->
+    exists a2 a2' w2 w2',
+      update_distance (fold_left add_data_state bs (init_round a)) = Some a2
+      /\ update_distance (fold_left add_data_state (map (scale_mat c) bs) (init_round a')) = Some a2'
+      /\ a_funcs a2 = a_funcs a ++ [Some w2] /\ a_funcs a2' = a_funcs a' ++ [Some w2']
+      /\ length w2 = w /\ length w2' = w
+      /\ forall j, (j < w)%nat -> nth j w2' 0 == / (c * c) * nth j w2 0.
+Proof. exact weights_unit_change. Qed.
+Print Assumptions C12_weights_unit_change.
+
+Theorem C12_newest_distance_unit_free :
+  forall c var u o,
+    ~ c == 0 -> length var = length u -> length o = length u ->
+    dist2 (Some (map (fun v => c * c * v) var)) (map (Qmult c) u) (map (Qmult c) o) == dist2 (Some var) u o.
+Proof. exact dist2_unit_free. Qed.
+Print Assumptions C12_newest_distance_unit_free.
 
 (** *** update_distance / nested_distance, any number of rounds *)
 
@@ -271,6 +313,23 @@ Proof.
   - split; [discriminate|]. repeat constructor; discriminate.
   - eexists. split; vm_compute; reflexivity.
   - vm_compute. reflexivity.
+Qed.
+
+(** a summary in a very small unit (2^-70, about 8.5e-22): rows 1u, 3u and a second summary 10, 30 in two
+    batches; scale^2 = u^2 = 2^-140 (far below the square of the binary64 machine epsilon, 2^-104) and
+    100; the appended weights are 2^140 and 1/100 - nothing is floored *)
+Example C12_example_tiny_unit :
+  let u := 1 # 1180591620717411303424 in
+  let bs := [[[1 * u; 10]]; [[3 * u; 30]]] in
+  Forall (fun b => b <> [] /\ width b = 2%nat) bs
+  /\ map Qred (scale2_of (fold_left add_data bs store0)) = [Qred (u * u); 100]
+  /\ Qle_bool ((1 # 4503599627370496) * (1 # 4503599627370496)) (u * u) = false
+  /\ (exists a2, update_distance (fold_left add_data_state bs (init_round astate0)) = Some a2
+                 /\ a_funcs a2 = [None; Some [Qred (/ (u * u)); 1 # 100]]).
+Proof.
+  cbv zeta. split; [repeat constructor; discriminate|].
+  split; [vm_compute; reflexivity|]. split; [vm_compute; reflexivity|].
+  eexists. split; vm_compute; reflexivity.
 Qed.
 
 Example C12_example_kwargs :
